@@ -4,6 +4,8 @@ import json
 from pathlib import Path
 ROOT = Path(__file__).resolve().parent
 reg = json.loads((ROOT / "harness" / "registry.json").read_text())
+for f in sorted((ROOT / "harness" / "registry.d").glob("*.json")):
+    reg.update(json.loads(f.read_text()))
 props = [json.loads(l) for l in (ROOT / "properties.jsonl").read_text().splitlines() if l.strip()]
 checks, na = [], []
 for p in props:
